@@ -6,7 +6,8 @@ BLANK blocks, stray rows; blocks separated by a blank line or by nothing) read t
 x to in {pdtable, jsondata, cellgrid} x tracker in {default (raising), collecting} x fixer in {none, lenient / custom
 instance, ParseFixer class, lenient subclass; a fresh one per read} x a predicate drawn as a random
 subset of the observed (type, name) pairs, wrapped in a recorder, answering with a bool / numpy.bool_ / 1-0 /
-re.Match-None / str / list (the truth value of the answer decides).
+re.Match-None / str / list (the truth value of the answer decides), and written as a two-parameter function /
+*args / (*args, **kwargs) / callable object / functools.partial / bound method / callable without signature.
 
 Oracle (no Lean model involved), per case:
   frame   U  = the unfiltered read of the same source with a collecting tracker: one event per block, in order
@@ -96,6 +97,45 @@ def as_verdict(kind, accept):
     if kind == "list":
         return [0] if accept else []
     return bool(accept)
+
+
+PRED_FORMS = ["def2", "def2", "varargs", "varkw", "object", "partial", "method", "nosig", "defaults"]
+
+
+def pred_form(kind, f):
+    """the same verdict function `f(block_type, name)` in another of the forms a caller may write it in"""
+    import functools
+    if kind == "varargs":
+        return lambda *key: f(*key)
+    if kind == "varkw":
+        def any_args(*args, **kwargs):
+            return f(*args, **kwargs)
+        return any_args
+    if kind == "object":
+        class Pred:
+            def __call__(self, block_type, name):
+                return f(block_type, name)
+        return Pred()
+    if kind == "partial":
+        return functools.partial(lambda tag, block_type, name: f(block_type, name), "tag")
+    if kind == "method":
+        class Holder:
+            def accept(self, block_type, name):
+                return f(block_type, name)
+        return Holder().accept
+    if kind == "nosig":
+        class NoSignature:
+            """a callable whose signature cannot be inspected (as for some builtins)"""
+            @property
+            def __signature__(self):
+                raise ValueError("no signature found")
+
+            def __call__(self, *args):
+                return f(*args)
+        return NoSignature()
+    if kind == "defaults":
+        return lambda block_type, name, _unused=None: f(block_type, name)
+    return f
 
 
 def fixer_arg(kind):
@@ -293,7 +333,14 @@ class Source:
         from pdtable import read_csv, read_excel
         kw = dict(to=to, filter=pred, issue_tracker=tracker)
         if fx is not None:
-            kw["fixer"] = fixer_arg(fx)
+            if self.extra.get("reuse_fixer") and fx in ("lenient", "custom"):
+                # second use: one fixer instance serves every read of the case (what it remembers from an earlier
+                # read must not show in a later one)
+                if getattr(self, "_fixer", None) is None:
+                    self._fixer = fixer_arg(fx)
+                kw["fixer"] = self._fixer
+            else:
+                kw["fixer"] = fixer_arg(fx)
         if self.extra.get("origin") is not None:
             kw["origin"] = self.extra["origin"]
         if self.api == "parse_blocks":
@@ -500,7 +547,8 @@ def one_case(rng, out, seed, idx, tmp, ops, pend, model_ok):
     # never-combined-before routes: read_csv by path, read_excel(sheet_name_pattern=...), origin= — each with a filter
     extra = {"csv_route": rng.choice([None, None, "str", "path"]) if api == "read_csv" else None,
              "pattern": rng.choice([None, None, "sh0", "sh1", "sh", "sh[01]$", "nomatch"]) if api == "read_excel" else None,
-             "origin": rng.choice([None, None, "somewhere.csv"]) if api != "read_excel" else rng.choice([None, "wb"])}
+             "origin": rng.choice([None, None, "somewhere.csv"]) if api != "read_excel" else rng.choice([None, "wb"]),
+             "reuse_fixer": rng.random() < 0.3}
     src = Source(api, sheets, tmp, sep, tag=f"c{idx}", extra=extra)
     case = {"seed": seed, "index": idx, "api": api, "to": to, "tracker": tracker, "fixer": fx, "sep": sep,
             "sheets": [grid_to_json(s) for s in src.seen_all], "extra": extra,
@@ -585,6 +633,11 @@ def eval_case(case, out, tmp, ops, pend, model_ok, src=None):
     def pred(bt, name):
         rec.append((bt.name, name))
         return as_verdict(vk, p(bt, name))
+
+    pf = case.get("pred_form") or random.Random(f"{sub}:form").choice(PRED_FORMS)
+    out.count("pred_form:" + pf)
+    case["pred_form"] = pf
+    pred = pred_form(pf, pred)
 
     F = unchanged(run_read(src, to, pred, tracker, fx), "filtered")
     rec_f = list(rec)
@@ -729,6 +782,7 @@ def eval_case(case, out, tmp, ops, pend, model_ok, src=None):
     new_sheets = [list(map(list, s)) for s in src.seen_all]
     new_sheets[src.selected[si]] = seen_rows[:start] + new_block + seen_rows[start + n:]
     src2 = Source(api, new_sheets, tmp, sep, tag=f"c{idx}m", extra=case.get("extra"))
+    src2._fixer = getattr(src, "_fixer", None)
     src2.shared = src.shared
     same_outside = len(src.seen) == len(src2.seen) and all(
         (a[:start] + a[start + n:] if j == si else a) == (b[:start] + b[start + n2:] if j == si else b)
